@@ -5,7 +5,7 @@
    structural identity up to nil-versus-empty collections and [is_blank] an empty destination
    (Spec/EmptySpec.v), [wfn] / [wtb] / [gov] as in Properties/C08.v. *)
 From Coq Require Import List Bool String Ascii ZArith Arith.
-From Verif Require Import Util Ints Node GoSrc Value Outcome InsReset InsCopy EmptySpec LCSound ResetCopySound
+From Verif Require Import Util Ints Node GoSrc Value Outcome InsReset InsCopy EmptySpec LCSound ResetCopySound CopyAlloc
   Shapes EnumVal GenUnits GenC10 GenC08 GenC06.
 Import ListNotations.
 
@@ -40,6 +40,16 @@ Proof.
 Qed.
 Print Assumptions C06_copyto_reset_destination.
 
+(* Source and copy share no mutable memory, as far as a model of value TREES can say it: of the
+   allocations the statements of cpy put into the result ([cpy_allocs], Model/InsCopy.v) none is
+   a stored reference of the source - each is fresh, the destination's own, or a slice handed out
+   by the byte buffer (pairwise disjoint, capacity included, and never the caller's bytes: C07_no_overlap,
+   C07_handout_is_input).  For every node and all values; the native address-overlap and mutation
+   oracle of the stream is what ties this to the real code. *)
+Theorem C06_disjoint : forall n d v, ~ In OSrc (cpy_allocs n d v).
+Proof. exact cpy_allocs_no_src. Qed.
+Print Assumptions C06_disjoint.
+
 (* No panic (feeds C02): Copy of a value or through a non-nil pointer, CopyTo through non-nil pointers. *)
 Theorem C06_no_panic : forall n d v,
   (exists r e, copy_method n (AVal v) = Ret r e) /\ (exists r e, copy_method n (APtr (Some v)) = Ret r e) /\
@@ -58,6 +68,24 @@ Example C06_units_inhabit :
 Proof. vm_compute. reflexivity. Qed.
 
 Local Open Scope string_scope.
+(* Known (findings/C06.txt): the generated DeepEqual does not report a faithful copy equal when the
+   value holds a non-empty map with pointer keys (keys are looked up by identity), and panics on a
+   nil pointer-to-scalar struct field.  [deq3] is the verdict the stream predicts - and observes -
+   for DeepEqual(source, copy); both defects are in the DeepEqual emitter (C05). *)
+Example C06_refuted_deepequal_pointer_keys :
+  let n := root_node ("T", TStruct [("F", TMap (TPtr (TScalar (SInt KInt32))) (TScalar SString))]) in
+  let v := VStruct [VMap false [(VPtr (Some (VInt 1)), VStr "a")]] in
+  wfn n = true /\ wtb n v = true /\ gov n v = true /\
+  canon false (cpy n (zero_val n) v) = canon false v /\ deq3 n v = "0".
+Proof. vm_compute. repeat split; reflexivity. Qed.
+
+Example C06_refuted_deepequal_nil_pointer_scalar :
+  let n := root_node ("T", TStruct [("F", TPtr (TScalar SBool))]) in
+  let v := VStruct [VPtr None] in
+  wfn n = true /\ wtb n v = true /\ gov n v = true /\
+  cpy n (zero_val n) v = v /\ deq3 n v = "P".
+Proof. vm_compute. repeat split; reflexivity. Qed.
+
 (* pointer to scalar: the copy gets its own target (the pinned generator copied the pointer);
    an empty source slice leaves the fresh destination nil; map entries are written into a fresh map *)
 Example C06_demo :
@@ -69,5 +97,6 @@ Example C06_demo :
     Ret (Some (VStruct [VPtr (Some (VInt 5)); VSlice true [] 0;
                         VMap false [(VStr "k", VPtr (Some (VStruct [VInt 7; VStr "abc"; VBytes false (bytes_of_string "xy") 0; VFloat (Floats.norm64 3 (-1))])));
                                     (VStr "z", VPtr None)]])) None /\
-  count_bytes n v = 7%Z.
+  count_bytes n v = 7%Z /\
+  cpy_allocs n (zero_val n) v = [OFresh; OFresh; OBuf; OFresh; OBuf; OBuf; OBuf].
 Proof. vm_compute. repeat split; reflexivity. Qed.
